@@ -36,7 +36,15 @@ use serde_json::{json, Value};
 use std::collections::{BTreeMap, BTreeSet};
 
 const S: u64 = 1_000_000_000;
-const T0: u64 = chain::GENESIS_NS + S;
+const T0_DEFAULT: u64 = chain::GENESIS_NS + S;
+thread_local! {
+    /// chain clock at which the world of the case being run is created
+    static T0_CELL: std::cell::Cell<u64> = std::cell::Cell::new(T0_DEFAULT);
+}
+#[allow(non_snake_case)]
+fn T0() -> u64 {
+    T0_CELL.with(|c| c.get())
+}
 const WEEK: u64 = 7 * 24 * 3600;
 /// smallest offset whose product with 10^9 leaves u64
 const MUL_OVERFLOW: u64 = u64::MAX / S + 1;
@@ -164,6 +172,9 @@ pub struct Case {
     pub ops: Vec<Cop>,
     #[serde(default)]
     pub dims: Dims,
+    /// chain clock at creation, nanoseconds relative to the genesis mint time (None: genesis + 1 s)
+    #[serde(default)]
+    pub clock: Option<i64>,
 }
 
 fn sat(base: u128, d: i64) -> u64 {
@@ -197,7 +208,7 @@ fn resolve(t: T, c: &Ctx) -> Option<Option<u64>> {
         T::Abs(x) => Some(x),
         T::A { anchor, off, d } => {
             let a = match anchor {
-                Anchor::Creation => T0,
+                Anchor::Creation => T0(),
                 Anchor::Now => now,
                 Anchor::Start => start,
                 Anchor::OrigStart => c.orig_start,
@@ -222,12 +233,12 @@ fn resolve_off(o: Off, start: u64) -> u64 {
         Off::MaxOk(d) => sat(((u64::MAX - start) / S) as u128, d),
     }
 }
-/// (secs, nanos) relative to T0 for the sale world's op language
+/// (secs, nanos) relative to T0() for the sale world's op language
 fn rel(t: u64) -> (u64, i64) {
-    if t >= T0 {
-        ((t - T0) / S, ((t - T0) % S) as i64)
+    if t >= T0() {
+        ((t - T0()) / S, ((t - T0()) % S) as i64)
     } else {
-        (0, -((T0 - t) as i64))
+        (0, -((T0() - t) as i64))
     }
 }
 fn tsj(n: u64) -> Value {
@@ -279,13 +290,16 @@ impl FamWorld {
     /// the chain and the factory; Err only if the harness itself is wrong
     pub fn new(fam: Fam, updatable: bool, start: u64, offset: u64, requested: Option<u64>, dims: &Dims) -> Result<FamWorld, String> {
         let mut app = chain::new_app();
+        if chain::now(&app) != T0() {
+            chain::set_time(&mut app, T0());
+        }
         for a in [CREATOR, BUYERS[0], BUYERS[1], STRANGER] {
             chain::mint_coins(&mut app, a, 1_000_000_000_000, NATIVE);
         }
         // open editions: a whitelist of the kind the variant talks to, with its own window
         let mut whitelist: Option<Addr> = None;
         if let (Fam::OpenEdition(i), Some((ws, we))) = (fam, dims.wl) {
-            let (ws, we) = (T0 + ws * S, T0 + we * S);
+            let (ws, we) = (T0() + ws * S, T0() + we * S);
             let (code, msg, fee) = match i {
                 0 => (chain::whitelist(),
                       json!({"members": [BUYERS[0]], "start_time": tsj(ws), "end_time": tsj(we), "mint_price": coinv(60),
@@ -418,7 +432,7 @@ impl W {
     fn start(&self) -> u64 {
         match self.config()["start_time"].as_str() {
             Some(s) => s.parse().unwrap(),
-            None => T0,
+            None => T0(),
         }
     }
     fn offset(&self) -> u64 {
@@ -457,19 +471,24 @@ pub fn run_case(c: &Case) -> CaseResult {
     let mut res = CaseResult { coq: vec![], steps: 0, nontrivial: vec![], violations: vec![], hist: BTreeMap::new(), summary: Value::Null };
     let fam = c.fam;
     let name = fam.name();
+    let clock0: u64 = match c.clock {
+        Some(d) => (chain::GENESIS_NS as i128 + d as i128) as u64,
+        None => T0_DEFAULT,
+    };
+    T0_CELL.with(|x| x.set(clock0));
     let coll_kind = if c.updatable { "sg721-updatable" } else { "sg721-base" };
-    let start0 = T0 + c.start_in_secs * S;
+    let start0 = T0() + c.start_in_secs * S;
     let offset0 = resolve_off(c.offset, start0);
     let dims = c.dims;
     let is_oe = matches!(fam, Fam::OpenEdition(_));
     let end0: Option<u64> = if is_oe { dims.end_after_secs.map(|e| start0 + e * S) } else { None };
-    let wl0: Option<(u64, u64)> = if is_oe || matches!(fam, Fam::Vending(_)) { dims.wl.map(|(a, b)| (T0 + a * S, T0 + b * S)) } else { None };
+    let wl0: Option<(u64, u64)> = if is_oe || matches!(fam, Fam::Vending(_)) { dims.wl.map(|(a, b)| (T0() + a * S, T0() + b * S)) } else { None };
     // the ledger (the base minter has no mint start: its creation time stands in, only to resolve symbolic times)
     let mut led = Ctx {
-        now: T0,
-        start: if fam.bounded() { start0 } else { T0 },
+        now: T0(),
+        start: if fam.bounded() { start0 } else { T0() },
         offset: offset0,
-        orig_start: if fam.bounded() { start0 } else { T0 },
+        orig_start: if fam.bounded() { start0 } else { T0() },
         orig_offset: offset0,
         prev_offset: offset0,
         end: end0,
@@ -491,6 +510,7 @@ pub fn run_case(c: &Case) -> CaseResult {
             cfg.start_in_secs = c.start_in_secs;
             cfg.fp.offset_secs = offset0;
             cfg.start_trading = requested;
+            cfg.clock = c.clock.map(|_| clock0);
             if let Some(win) = dims.wl {
                 cfg.wl = if VARIANTS[i].flex { w_sale::WlKind::Flex } else { w_sale::WlKind::Plain };
                 cfg.wl_windows = vec![win];
@@ -503,7 +523,7 @@ pub fn run_case(c: &Case) -> CaseResult {
     let create_ok = created.is_ok();
     *res.hist.entry(format!("{}:create:{}", name, if create_ok { "ok" } else { "err" })).or_insert(0) += 1;
     // what the property promises about creation (checked u64 arithmetic, documented 10^9)
-    let base_for_default = if fam.bounded() { start0 } else { T0 };
+    let base_for_default = if fam.bounded() { start0 } else { T0() };
     let default = checked_bound(base_for_default, offset0);
     let stored: Option<Option<u64>> = created.as_ref().ok().map(|w| w.trading());
     match (&created, requested) {
@@ -539,7 +559,9 @@ pub fn run_case(c: &Case) -> CaseResult {
                 (false, Some(_)) => true,
                 (false, None) => default.is_some(),
             };
-            if allowed {
+            // vending / token-merge minters refuse a mint start before the genesis mint time: not a trading-time refusal
+            let start_before_genesis = matches!(fam, Fam::Vending(_) | Fam::TokenMerge) && start0 < chain::GENESIS_NS;
+            if allowed && !start_before_genesis {
                 let tail: String = e.chars().rev().take(160).collect::<Vec<_>>().into_iter().rev().collect();
                 viol(&mut res, "valid-creation-rejected", format!("creation with start {}, offset {} s, requested {:?} was refused: ...{}", start0, offset0, r, tail));
             }
@@ -549,12 +571,16 @@ pub fn run_case(c: &Case) -> CaseResult {
         Some(v) => format!("(Ok {})", coq_opt_n(*v)),
         None => "Err".to_string(),
     };
-    res.coq.push(format!("(KCreate {} {} {} {} {} {})", fam.coq(), T0, start0, offset0, coq_opt_n(requested), stored_coq));
-    res.nontrivial.push(format!("{}|{}|create|{}|{:?}|{:?}|{:?}", name, coll_kind, offset0, c.requested, dims, create_ok));
+    // (a vending / token-merge creation with a mint start before genesis is refused for that reason: the refusal
+    // is recorded in the histogram, the trading-time rule has nothing to say about it)
+    if !(matches!(fam, Fam::Vending(_) | Fam::TokenMerge) && start0 < chain::GENESIS_NS) {
+        res.coq.push(format!("(KCreate {} {} {} {} {} {})", fam.coq(), T0(), start0, offset0, coq_opt_n(requested), stored_coq));
+    }
+    res.nontrivial.push(format!("{}|{}|create|{}|{}|{:?}|{:?}|{:?}", name, coll_kind, clock0, offset0, c.requested, dims, create_ok));
     let mut w = match created {
         Ok(w) => w,
         Err(_) => {
-            res.summary = json!({"family": name, "collection": coll_kind, "creation": "rejected", "offset": offset0, "requested": format!("{:?}", c.requested)});
+            res.summary = json!({"family": name, "collection": coll_kind, "creation": "rejected", "clock": clock0, "offset": offset0, "requested": format!("{:?}", c.requested)});
             return res;
         }
     };
@@ -593,7 +619,7 @@ pub fn run_case(c: &Case) -> CaseResult {
         };
         match op {
             Cop::At { secs, nanos } => {
-                let t = ((T0 + secs * S) as i128 + *nanos as i128) as u64;
+                let t = ((T0() + secs * S) as i128 + *nanos as i128) as u64;
                 if t > now {
                     match &mut w {
                         W::Sale(sw) => {
@@ -845,7 +871,7 @@ fn trading(who: &str, t: T) -> Cop {
 fn creation_probes(fam: Fam, updatable: bool) -> Vec<Case> {
     let mut v = vec![];
     let mut add = |offset: Off, requested: T, ops: Vec<Cop>| {
-        v.push(Case { fam, updatable, start_in_secs: 3000, offset, requested, ops, dims: Dims::default() });
+        v.push(Case { fam, updatable, start_in_secs: 3000, offset, requested, ops, dims: Dims::default(), clock: None });
     };
     let tail = || vec![trading(CREATOR, T::Bound(0)), trading(CREATOR, T::Bound(1))];
     if updatable {
@@ -872,6 +898,26 @@ fn creation_probes(fam: Fam, updatable: bool) -> Vec<Case> {
     }
     add(Off::Abs(MUL_OVERFLOW - 1), T::None, vec![]);
     add(Off::Abs(u64::MAX), T::None, vec![]);
+    v
+}
+
+/// creations while the chain clock is before / just before / at the genesis mint time, with the
+/// trading time omitted and given at genesis + offset, clock + offset and mint start + offset (+0 / +1 ns)
+fn clock_creations(fam: Fam) -> Vec<Case> {
+    let mut v = vec![];
+    let a = |anchor: Anchor, d: i64| T::A { anchor, off: OffSel::Cur, d };
+    for clock in [-(1000 * S as i64), -1, 0] {
+        for requested in [T::None, a(Anchor::Genesis, 0), a(Anchor::Genesis, 1), a(Anchor::Creation, 0), a(Anchor::Creation, 1),
+                          a(Anchor::Start, 0), a(Anchor::Start, 1)] {
+            v.push(Case { fam, updatable: false, start_in_secs: 3000, offset: Off::Abs(WEEK), requested,
+                          ops: vec![trading(CREATOR, T::Bound(0)), trading(CREATOR, T::Now(-1))], dims: Dims::default(), clock: Some(clock) });
+        }
+    }
+    // the mint start itself before genesis: vending and token-merge refuse the creation, the others do not
+    for requested in [T::None, a(Anchor::Start, 0)] {
+        v.push(Case { fam, updatable: false, start_in_secs: 500, offset: Off::Abs(WEEK), requested, ops: vec![], dims: Dims::default(),
+                      clock: Some(-(1000 * S as i64)) });
+    }
     v
 }
 
@@ -978,7 +1024,7 @@ fn probe_history(fam: Fam, updatable: bool) -> Case {
         // keep the second collection type cheaper: drop the overflow block
         ops.retain(|o| !matches!(o, Cop::Offset { offset: Off::Abs(MUL_OVERFLOW) } | Cop::Offset { offset: Off::Abs(u64::MAX) }));
     }
-    Case { fam, updatable, start_in_secs: 3000, offset: Off::Abs(WEEK), requested: T::Bound(0), ops, dims: Dims::default() }
+    Case { fam, updatable, start_in_secs: 3000, offset: Off::Abs(WEEK), requested: T::Bound(0), ops, dims: Dims::default(), clock: None }
 }
 
 const DAY: u64 = 24 * 3600;
@@ -1010,7 +1056,7 @@ fn anchor_creations(fam: Fam, dims: Dims) -> Vec<Case> {
     for anchor in [Anchor::Creation, Anchor::Start, Anchor::End, Anchor::WlStart, Anchor::WlEnd, Anchor::Genesis] {
         for d in [0i64, 1] {
             v.push(Case { fam, updatable: false, start_in_secs: 3000, offset: Off::Abs(WEEK), requested: T::A { anchor, off: OffSel::Cur, d },
-                          ops: vec![], dims });
+                          ops: vec![], dims, clock: None });
         }
     }
     v
@@ -1041,7 +1087,7 @@ fn anchor_history(fam: Fam, dims: Dims) -> Case {
     sweep(&mut ops, &ANCHORS, &[OffSel::Cur, OffSel::Orig, OffSel::Prev]);
     ops.push(Cop::At { secs: 8000, nanos: 0 });
     sweep(&mut ops, &[Anchor::Now, Anchor::Start, Anchor::OrigStart, Anchor::End, Anchor::OrigEnd, Anchor::Creation], &[OffSel::Cur, OffSel::Orig]);
-    Case { fam, updatable: false, start_in_secs: 3000, offset: Off::Abs(WEEK), requested: T::Bound(0), ops, dims }
+    Case { fam, updatable: false, start_in_secs: 3000, offset: Off::Abs(WEEK), requested: T::Bound(0), ops, dims, clock: None }
 }
 
 fn gen_case(rng: &mut Rng, fam: Fam, lits: &[u64], thorough: bool) -> Case {
@@ -1056,7 +1102,7 @@ fn gen_case(rng: &mut Rng, fam: Fam, lits: &[u64], thorough: bool) -> Case {
             9 => T::NowPlusOffset(d),
             10 => {
                 if rng.chance(1, 2) {
-                    T::Abs(*rng.pick(&[0u64, 1, T0, u64::MAX, u64::MAX - 1, chain::GENESIS_NS]))
+                    T::Abs(*rng.pick(&[0u64, 1, T0(), u64::MAX, u64::MAX - 1, chain::GENESIS_NS]))
                 } else {
                     T::A { anchor: *rng.pick(&ANCHORS), off: *rng.pick(&[OffSel::Cur, OffSel::Orig, OffSel::Prev]), d: *rng.pick(&[-1i64, 0, 1]) }
                 }
@@ -1132,7 +1178,7 @@ fn gen_case(rng: &mut Rng, fam: Fam, lits: &[u64], thorough: bool) -> Case {
         let at = rng.below(ops.len() as u64 + 1) as usize;
         ops.insert(at, Cop::EndTime { who: CREATOR.into(), t: T::A { anchor: Anchor::End, off: OffSel::Cur, d: (rng.below(20 * DAY) as i64 - (WEEK as i64)) * S as i64 } });
     }
-    Case { fam, updatable: rng.chance(1, 3), start_in_secs, offset, requested, ops, dims }
+    Case { fam, updatable: rng.chance(1, 3), start_in_secs, offset, requested, ops, dims, clock: None }
 }
 
 pub fn run(a: &Args) {
@@ -1165,6 +1211,7 @@ pub fn run(a: &Args) {
                 v.push(probe_history(fam, updatable));
                 v.extend(creation_probes(fam, updatable));
             }
+            v.extend(clock_creations(fam));
             for dims in dim_configs(fam) {
                 v.push(anchor_history(fam, dims));
                 v.extend(anchor_creations(fam, dims));
